@@ -71,14 +71,31 @@ def find_fn(src, fn, scope=None):
         if not m:
             raise TranslateError(f"scope {scope!r} not found")
         start = m.end()
-    m = re.compile(r"\bfn\s+" + re.escape(fn) + r"\b[^{;]*\{").search(text, start)
-    if not m:
+    hdr = None
+    for m in re.compile(r"\bfn\s+" + re.escape(fn) + r"\b").finditer(text, start):
+        # scan the signature: the body opens at the first `{` outside ( ) [ ]; a `;` outside them = declaration only
+        depth, j = 0, m.end()
+        while j < len(text):
+            c = text[j]
+            if c in "([":
+                depth += 1
+            elif c in ")]":
+                depth -= 1
+            elif c == "{" and depth == 0:
+                hdr = (m.start(), j + 1)
+                break
+            elif c == ";" and depth == 0:
+                break
+            j += 1
+        if hdr:
+            break
+    if not hdr:
         raise TranslateError(f"fn {fn} not found")
-    depth, i = 1, m.end()
+    depth, i = 1, hdr[1]
     while i < len(text) and depth:
         depth += {"{": 1, "}": -1}.get(text[i], 0)
         i += 1
-    return text[m.start():m.end()], text[m.end():i - 1]
+    return text[hdr[0]:hdr[1]], text[hdr[1]:i - 1]
 
 
 # ----------------------------------------------------------------------------------------------- parser (AST)
@@ -134,6 +151,13 @@ class P:
                 self.eat(); self.eat("["); d = 1
                 while d:
                     t = self.eat()[1]; d += (t == "[") - (t == "]")
+                continue
+            if self.atid("fn") or (self.atid("const") and self.peek(1)[1] == "fn"):   # nested item: skipped (tied separately)
+                while not self.at("{"):
+                    self.eat()
+                self.eat("{"); d = 1
+                while d:
+                    t = self.eat()[1]; d += (t == "{") - (t == "}")
                 continue
             stmts.append(self.stmt())
         return stmts
@@ -336,6 +360,9 @@ class Kernel:
         self.result = kw["result"]; self.stmt_filter = kw.get("stmt_filter")
         self.widths = kw.get("widths", {})   # optchk: width -> (add, sub, mul) function names
         self.doc = kw.get("doc", "")
+        self.select = kw.get("select")       # optional: python function stmts -> stmts (e.g. body of the first `for`)
+        self.agg_calls = dict(kw.get("agg_calls", {}))   # fn name -> (lean fn, field names of the returned aggregate, elem type, monadic?)
+        self.agg_fields = kw.get("agg_fields", ["l0", "l1", "l2", "l3", "l4"])
 
 
 def show(e):
@@ -354,6 +381,31 @@ def show(e):
     if k == "paren":
         return show(e[1])
     raise TranslateError(f"cannot show {e}")
+
+
+def is_const_expr(e, consts):
+    k = e[0]
+    if k == "lit":
+        return True
+    if k == "paren":
+        return is_const_expr(e[1], consts)
+    if k == "path":
+        return e[1].split("::")[-1] in consts
+    if k == "bin" and e[1] in ("+", "-", "*", "<<", ">>"):
+        return is_const_expr(e[2], consts) and is_const_expr(e[3], consts)
+    return False
+
+
+def const_text(e, consts):
+    k = e[0]
+    if k == "lit":
+        return str(e[1])
+    if k == "paren":
+        return "(" + const_text(e[1], consts) + ")"
+    if k == "path":
+        return consts[e[1].split("::")[-1]][0]
+    sym = {"+": "+", "-": "-", "*": "*", "<<": "<<<", ">>": ">>>"}[e[1]]
+    return f"{const_text(e[2], consts)} {sym} {const_text(e[3], consts)}"
 
 
 class Tr:
@@ -400,6 +452,12 @@ class Tr:
     # ---- expressions: returns (lean text, type, atomic?)
     def ex(self, e, want=None):
         k = e[0]
+        if k == "bin" and isinstance(self, OptChk) and is_const_expr(e, self.k.consts) and not (e[2][0] == "lit" and e[3][0] == "lit"):
+            ty = want
+            for sub in (e[2], e[3]):
+                if sub[0] == "path":
+                    ty = self.k.consts[sub[1].split("::")[-1]][1]
+            return (const_text(e, self.k.consts), ty, False)
         if k == "lit":
             return (hex(e[1]) if e[1] > 9 and self.hexlit else str(e[1]), e[2] or want, True)
         if k == "paren":
@@ -607,12 +665,90 @@ class OptChk(Tr):
         return self.ex(e, ty)
 
 
+class CkSum(OptChk):
+    """style of Impl/Scalar64.lean: a left-nested chain of checked `+` is ONE overflow check `← ckN (a + b + …)` (partial sums of
+    naturals overflow iff the total does); helper functions for the truncating operators: shr64/shl64/asU64/wsub64/wadd64"""
+
+    def cast(self, t, ty, to, at):
+        if self.width(to) < self.width(ty):
+            return (f"asU{self.width(to)} {self.par(t, at)}", to, False)
+        return (t, to, at)
+
+    def bnot(self, t, ty, at):
+        return (f"{self.par(t, at)} ^^^ {2 ** self.width(ty) - 1}", ty, False)
+
+    def flatten_add(self, e):
+        if e[0] == "bin" and e[1] == "+":
+            return self.flatten_add(e[2]) + [e[3]]
+        return [e]
+
+    def binop(self, op, l, r, want):
+        if op in ("<<", ">>"):
+            lt, lty, lat = self.ex(l, want)
+            rt, _, rat = self.ex(r, None)
+            w = self.width(lty)
+            fn = ("shr" if op == ">>" else "shl") + str(w)
+            return (f"{fn} {self.par(lt, lat)} {self.par(rt, rat)}", lty, False)
+        if op == "+":
+            terms = self.flatten_add(("bin", op, l, r))
+            texts, ty = [], want
+            for t_ in terms:
+                hint, self.hint = self.hint, None
+                tt, tty, tat = self.ex(t_, ty)
+                self.hint = hint
+                ty = self.unify(ty, tty) if tty else ty
+                texts.append(tt if tat or self.is_app(tt) else f"({tt})")
+            w = self.width(ty)
+            n = self.fresh(self.hint or "a")
+            self.emit_bind(n, f"ck{w} (" + " + ".join(texts) + ")")
+            return (n, ty, True)
+        if op == "*":
+            lt, lty, lat = self.ex(l, want)
+            rt, rty, rat = self.ex(r, lty or want)
+            ty = self.unify(lty, rty)
+            n = self.fresh(self.hint or "a")
+            self.emit_bind(n, f"ck{self.width(ty)} ({self.par(lt, lat)} * {self.par(rt, rat)})")
+            return (n, ty, True)
+        if op == "==":
+            lt, lty, lat = self.ex(l, want)
+            rt, rty, rat = self.ex(r, lty)
+            return (f"{self.par(lt, lat)} == {self.par(rt, rat)}", "bool", False)
+        lt, lty, lat = self.ex(l, want)
+        rt, rty, rat = self.ex(r, lty or want)
+        if lty is None and rty is not None:
+            lt, lty, lat = self.ex(l, rty)
+        ty = self.unify(lty, rty)
+        sym = {"&": "&&&", "|": "|||", "^": "^^^"}[op]
+        lp = lt if (lat or self.is_app(lt) or (l[0] == "bin" and l[1] == op)) else f"({lt})"
+        rp = rt if (rat or self.is_app(rt)) else f"({rt})"
+        return (f"{lp} {sym} {rp}", ty, False)
+
+    @staticmethod
+    def is_app(t):
+        """function application `f a b` binds tighter than any infix operator"""
+        return bool(re.fullmatch(r"[A-Za-z_][\w.]*( (\([^()]*\)|[\w.]+))+", t))
+
+    def method(self, recv, name, args, want):
+        t, ty, at = self.ex(recv, want)
+        if name in ("wrapping_add", "wrapping_sub"):
+            a, aty, aat = self.ex(args[0], ty)
+            ty = self.unify(ty, aty)
+            fn = ("wadd" if name == "wrapping_add" else "wsub") + str(self.width(ty))
+            return (f"{fn} {self.par(t, at)} {self.par(a, aat)}", ty, False)
+        raise TranslateError(f"method {name}")
+
+
 def translate(k: Kernel):
     path = os.path.join(REPO, k.file)
     src = open(path).read()
     _, body = find_fn(src, k.fn, k.scope)
     stmts = P(lex(body)).block()
-    tr = NatLet(k) if k.backend == "natlet" else OptChk(k)
+    if k.select:
+        stmts = k.select(stmts)
+    tr = NatLet(k) if k.backend == "natlet" else (CkSum(k) if k.backend == "cksum" else OptChk(k))
+    for key, (val, ty) in k.env.items():
+        if isinstance(val, list) and re.fullmatch(r"[A-Za-z_]\w*", key) and key not in ("self", "rhs"):
+            tr.vars[key] = (list(val), ty)
     ret = None
     for idx, s in enumerate(stmts):
         if k.stmt_filter and not k.stmt_filter(idx, s):
@@ -637,6 +773,40 @@ def translate(k: Kernel):
             name = pat[1]
             if init is None:
                 tr.vars[name] = (None, ty)
+                continue
+            ikey = None
+            if init[0] in ("path", "field", "index"):
+                try:
+                    ikey = show(init)
+                except TranslateError:
+                    ikey = None
+            if ikey is not None and ikey in k.env and isinstance(k.env[ikey][0], list):
+                tr.vars[name] = (list(k.env[ikey][0]), k.env[ikey][1])
+                continue
+            if ikey is not None and ikey in tr.vars and isinstance(tr.vars[ikey][0], list):
+                tr.vars[name] = (list(tr.vars[ikey][0]), tr.vars[ikey][1])
+                continue
+            if init[0] == "repeat" and init[2][0] == "lit":
+                et, ety, _ = tr.ex(init[1], ty[1] if isinstance(ty, tuple) else None)
+                tr.vars[name] = ([et] * init[2][1], ety or (ty[1] if isinstance(ty, tuple) else None))
+                continue
+            if init[0] == "call" and show(init[1]).split("::")[-1] in k.agg_calls:
+                fname = show(init[1]).split("::")[-1]
+                lean_fn, fields, ety, monadic = k.agg_calls[fname]
+                args = []
+                for a in init[2]:
+                    akey = show(a) if a[0] in ("path", "field", "index") else None
+                    if akey in tr.vars and isinstance(tr.vars[akey][0], list):
+                        args.append("⟨" + ", ".join(tr.vars[akey][0]) + "⟩")
+                    else:
+                        t_, _, at_ = tr.ex(a)
+                        args.append(tr.par(t_, at_))
+                ln = tr.fresh(name)
+                if monadic:
+                    tr.emit_bind(ln, f"{lean_fn} " + " ".join(args))
+                else:
+                    tr.emit_let(ln, f"{lean_fn} " + " ".join(args))
+                tr.vars[name] = ([f"{ln}.{f}" for f in fields], ety)
                 continue
             if isinstance(tr, OptChk):
                 tr.hint = name
@@ -663,6 +833,35 @@ def translate(k: Kernel):
                 t, ty, at = tr.ex(rhs)
                 tr.outputs[k.stores[key]] = t if at else f"({t})"
                 continue
+            if lhs[0] == "index" and lhs[2][0] == "lit":
+                base = None
+                try:
+                    base = show(lhs[1])
+                except TranslateError:
+                    pass
+                if base in tr.vars and isinstance(tr.vars[base][0], list):
+                    elems, ety = tr.vars[base]
+                    ix = lhs[2][1]
+                    cur = elems[ix]
+                    tmpname = f"{base}{ix}"
+                    tr.vars[tmpname] = (cur, ety)
+                    if isinstance(tr, OptChk):
+                        tr.hint = tmpname
+                    if op == "=":
+                        t, _, at = tr.ex(rhs, ety)
+                    else:
+                        t, _, at = tr.assign_op(tmpname, ety, op, rhs)
+                    if isinstance(tr, OptChk):
+                        tr.hint = None
+                    if not at:
+                        ln = tr.fresh(tmpname)
+                        tr.emit_let(ln, t)
+                        t = ln
+                    elems = list(elems)
+                    elems[ix] = t
+                    tr.vars[base] = (elems, ety)
+                    del tr.vars[tmpname]
+                    continue
             if lhs[0] != "path" or lhs[1] not in tr.vars:
                 raise TranslateError(f"assignment to unknown place {key}")
             name = lhs[1]
@@ -686,10 +885,10 @@ def translate(k: Kernel):
         else:
             raise TranslateError(f"unsupported statement {kind}")
     res = k.result(tr, ret)
-    arrow = "do\n" if k.backend == "optchk" else "\n"
-    final = f"  pure {res}" if k.backend == "optchk" else f"  {res}"
+    monadic = k.backend in ("optchk", "cksum")
+    final = (res if res.startswith("  ") else f"  pure {res}") if monadic else f"  {res}"
     return (f"/-- {k.doc} — GENERATED from `fn {k.fn}` in {k.file} -/\n"
-            f"def {k.lean_name} {k.params} : {k.ret_type} :={' do' if k.backend == 'optchk' else ''}\n"
+            f"def {k.lean_name} {k.params} : {k.ret_type} :={' do' if monadic else ''}\n"
             + "\n".join(tr.lines) + "\n" + final + "\n")
 
 
